@@ -23,7 +23,7 @@ COMPONENTS = {"real": ["setigen.voltage.polyphase_filterbank (PolyphaseFilterban
               "stub": ["none needed: no clock, file or entropy is read on this path (entropy seam installed as tripwire)"]}
 ASSUMPTIONS = ["scipy.signal.firwin is the documented window design (trusted)",
                "float comparison at 1e-10 of the largest attainable output magnitude"]
-PROBES = ["long_single_call", "same_coefficient_count_other_split_alive", "chunk_single_window", "reset_midstream", "nocache_between_feeds", "interleaved_objects",
+PROBES = ["one_shot_length_not_a_multiple_of_window", "long_single_call", "same_coefficient_count_other_split_alive", "chunk_single_window", "reset_midstream", "nocache_between_feeds", "interleaved_objects",
           "complex_input", "nonpow2_branches", "dtype_switch_after_reset", "noncontiguous_input", "rejected_call"]
 
 WINDOWS = ["hamming", "hann", "boxcar", "blackman"]
@@ -86,6 +86,9 @@ def generate(rng, tier):
         elif r < 0.74:
             ops.append({"op": "nocache", "p": p, "k": rng.choice([1, 2, 3, 4]), "seed": rng.randrange(1 << 30),
                         "kind": rng.choice(KINDS[:4]), "layout": rng.choice(["c", "c", "stride2", "part"])})
+            if rng.random() < 0.3:
+                ops[-1]["ragged"] = rng.choice([0.01, 0.3, 0.5, 0.99])
+                ops[-1]["k"] = max(ops[-1]["k"], 2)
         elif r < 0.765:
             # a call the filterbank must reject (no array at all); the stream must carry on as if it had not happened
             ops.append({"op": "reject", "p": p, "arg": rng.choice(["none", "scalar"])})
@@ -242,11 +245,19 @@ def execute(sc, ctx):
                 ctx.nontrivial = True
             touched.add(p)
         elif op["op"] == "nocache":
-            y = make_input(op["kind"], op["seed"], op["k"] * T * B)
+            extra = int(op.get("ragged", 0) * (T * B - 1)) if op.get("ragged") else 0
+            y = make_input(op["kind"], op["seed"], op["k"] * T * B + extra)
             cache_before = None if o.cache is None else np.array(o.cache, copy=True)
             got = np.asarray(o.channelize(as_view(y.copy(), op.get("layout", "c")), cache=False))
             ctx.event("nocache", p, got)
             want = mv.ref_pfb(y, T, B, h)
+            if extra:
+                # a one-shot sequence whose length is not a whole number of windows: spectrum n still starts at
+                # sample n*num_branches; how many spectra the tail yields is not stated, the whole windows' are due
+                ctx.hit("one_shot_length_not_a_multiple_of_window")
+                whole = (op["k"] - 1) * T
+                if got.ndim == 2 and whole <= got.shape[0] <= want.shape[0]:
+                    want = want[:got.shape[0]]
             S["last_was_nocache"] = True
             if ctx.check(got.shape == want.shape, "count", "C08/count/nocache",
                          lambda: "got %s want %s" % (got.shape, want.shape)):
